@@ -54,6 +54,7 @@ import (
 	"github.com/oxia-db/oxia/server/wal"
 
 	"verif/harness/internal/hx"
+	"verif/harness/internal/kvsafe"
 )
 
 const c06StepTimeout = 10 * time.Second
@@ -175,7 +176,7 @@ type c06Node struct {
 func newC06Node(tag string, shard int64) *c06Node {
 	n := &c06Node{dir: c06TmpDir(tag), ns: "default", shard: shard}
 	var err error
-	n.kvf, err = kv.NewPebbleKVFactory(&kv.FactoryOptions{DataDir: filepath.Join(n.dir, "db"), CacheSizeMB: 1})
+	n.kvf, err = kvsafe.New(&kv.FactoryOptions{DataDir: filepath.Join(n.dir, "db"), CacheSizeMB: 1})
 	hx.Must(err)
 	n.walf = wal.NewWalFactory(&wal.FactoryOptions{BaseWalDir: filepath.Join(n.dir, "wal"), Retention: time.Hour, SegmentSize: 128 * 1024, SyncData: false})
 	return n
